@@ -4,6 +4,7 @@ package ardop
 
 import (
 	"bufio"
+	"encoding/hex"
 	"fmt"
 	"io"
 )
@@ -42,8 +43,30 @@ func VerifReadFrame(fType byte, rd *bufio.Reader, isTCP bool) VerifFrame {
 	return VerifFrame{Err: fmt.Errorf("unknown frame %T", f)}
 }
 
-// VerifParseCtrl runs parseCtrlMsg and renders the result.
+// VerifParseCtrl runs parseCtrlMsg and renders the result in the harness's token syntax.
 func VerifParseCtrl(s string) (cmd string, value string) {
 	m := parseCtrlMsg(s)
-	return string(m.cmd), fmt.Sprintf("%T:%v", m.value, m.value)
+	switch v := m.value.(type) {
+	case nil:
+		value = "none"
+	case bool:
+		value = "b0"
+		if v {
+			value = "b1"
+		}
+	case State:
+		value = fmt.Sprintf("s%d", int(v))
+	case string:
+		value = "x" + hex.EncodeToString([]byte(v))
+	case []string:
+		value = fmt.Sprintf("L%d", len(v))
+		for _, e := range v {
+			value += " x" + hex.EncodeToString([]byte(e))
+		}
+	case int:
+		value = fmt.Sprintf("i%d", v)
+	default:
+		value = fmt.Sprintf("?%T", v)
+	}
+	return string(m.cmd), value
 }
